@@ -27,16 +27,6 @@ Lemma float_token f :
 Proof. unfold float_atom. destruct (fcls f); reflexivity. Qed.
 
 (* the line half of the wire-level oracle accepts what the model observes *)
-Definition spec_line (i o : sx) : bool :=
-  let ec := dec_case i in let c := ec_cfg ec in
-  match sx_l o with
-  | SB out :: _ =>
-      match line_obj (resolved_le c) out with
-      | Some ms => jv_eqb (JObj ms) (JObj (jv_mem (entry_members c (ec_ctxs ec) (ec_ent ec) (ec_fs ec))))
-      | None => false
-      end
-  | _ => false
-  end.
 Theorem wire_line i : wf i = true ->
   owf_ctxs (ec_ctxs (dec_case i)) -> owf_flds (ec_fs (dec_case i)) -> rend_pre (t_rend (time_val (ec_ent (dec_case i)))) ->
   spec_line i (model i) = true.
